@@ -639,16 +639,20 @@ Proof.
     apply Forall_app_one; [log_r I|]. intros Hr. apply ready_sound_now; auto.
   - (* EAwaitL *)
     destruct (pc_of s h) as [[]|] eqn:Hpc; try discriminate. destruct (obs_ok v (w s)); [|discriminate].
-    inversion H; subst; clear H. use_pc I Hpc.
+    use_pc I Hpc.
     assert (Hm : slot s <> Moved) by (eapply not_moved_pc; eauto; discriminate).
-    replace (set_h h (if ready_of true (w s) then HRead else H0) (note_ready true s))
-      with (local_upd h (if ready_of true (w s) then HRead else H0) (gots s) (iruns s) (nfail s)
-                      (readys s ++ [(ready_of true (w s), is_some (rd s))]) s) by eq_st.
+    assert (Hr : ready_of true (w s) = true -> is_some (rd s) = true) by (apply ready_sound_now; auto).
+    assert (Hx : exists pc', s' = local_upd h pc' (gots s) (iruns s) (nfail s)
+                                   (readys s ++ [(ready_of true (w s), is_some (rd s))]) s /\
+                             (pc' = H0 \/ (pc' = HRead /\ w s = WRes))).
+    { destruct (w s) eqn:Hw; inversion H; subst; clear H.
+      - exists H0. split; [destruct s; simpl in *; subst; reflexivity|left; reflexivity].
+      - exists HRead. split; [destruct s; simpl in *; subst; reflexivity|right; auto]. }
+    clear H. destruct Hx as [pc' [-> Hp]].
     apply (inv_local s h pc0 _ _ _ _ _ I Hn Hl);
-      [destruct (ready_of true (w s)); reflexivity| |nomv|log_g I|log_i I| |
-       rewrite Hinl; destruct (ready_of true (w s)); simpl; lia].
-    + destruct (ready_of true (w s)) eqn:Er; [|exact Logic.I]. apply ready_res in Er. exact Er.
-    + apply Forall_app_one; [log_r I|]. intros Hr. apply ready_sound_now; auto.
+      [destruct Hp as [->|[-> _]]; reflexivity|destruct Hp as [->|[-> Hw]]; simpl; auto|nomv|log_g I|log_i I| |
+       rewrite Hinl; destruct Hp as [->|[-> _]]; simpl; lia].
+    apply Forall_app_one; [log_r I|]. exact Hr.
   - (* ETouchL *)
     destruct (pc_of s h) as [[]|] eqn:Hpc; try discriminate.
     destruct (obs_ok v (w s) && ready_of true (w s)) eqn:Eb; [|discriminate].
